@@ -30,3 +30,18 @@ add("C06",
     "spec/Itf.tla: for every role assignment of 4 (thorough: 5) variables TLC checks that the list algebra of the code equals the worded prescription, is duplicate free and well formed for meaningful requests. Binding: (a) symbolic contents -- every outcome path of the real compose/quotient/merge, the constructor with planted duplicates/overlaps/stray variables, refines across interfaces, copy and rename, judged by TraceAlgebra!OblJudge/ItfJudge (prescribed interface, well-formedness, IncompatibleArgsError exactly for meaningless requests, operands intact); (b) polyhedral contents -- group itf of TraceOps.tla on the C01/C02/C08/C16 generators.",
     "Interfaces are compared as sets (list order is free), duplicates as sequences. Where the code legitimately raises for another documented reason first (ValueError from an unsatisfiable system, IncompatibleArgsError for variables that cannot be eliminated) the event is accepted.",
     "TLC exhaustive check of the interface algebra + TLC trace validation of recorded operations (symbolic and polyhedral contents)", "DESIGN.md 3.2, 6/C06")
+_LP_NOTE = ("Trusted: TLC's evaluation of Poly.tla/LP.tla and the projection of inputs (exact: generated data are small integers / dyadic rationals). "
+            "Hints (z3) are untrusted: the true answer of each query is ESTABLISHED by TLC from an exact box-free Farkas certificate, a witness point or a "
+            "recession ray, or the event is unjudged. Inputs bounded: <= 6 rows, <= 5 variables, coefficients -3..3.")
+add("C03",
+    "LP!ListTruth / ContractTruth define the true answer of refinement from certificates (exact box-free Farkas for every right row => True; a point of the left side breaking a right row by more than tol => False; otherwise open). 15 generator families carry their ground truth by construction; every recorded refines / <= / contains_environment / contains_implementation call is judged by TLC; different interfaces must raise IncompatibleArgsError.",
+    _LP_NOTE, "TLC trace validation against LP.tla; ground truth by certificate checking", "DESIGN.md 6/C03")
+add("C07",
+    "LP!SimplifyJudge: selection (every result row is an input row), equivalence (context /\\ result => every input row, certificate), irredundancy (for every kept row a point of context /\\ others where it is not implied with margin; a box-free margin certificate is the violation), ValueError only with a box-free infeasibility certificate (a feasible point is the violation); through TermList.simplify with/without context and contract construction.",
+    _LP_NOTE, "TLC trace validation against LP.tla; Farkas / margin / infeasibility certificates and witness points", "DESIGN.md 6/C07")
+add("C11",
+    "Membership is decided by TLC's own integer arithmetic on dyadic behaviours placed on / inside / outside every boundary (LP!ContainsJudge, incl. unassigned variables); emptiness truth from a box-free Farkas certificate or a feasible point (LP!EmptyTruth); membership-vs-refinement consistency on recorded values.",
+    _LP_NOTE, "TLC trace validation against LP.tla; exact evaluation and certificate checking", "DESIGN.md 6/C11")
+add("C12",
+    "LP!OptTruth: optimal (feasible primal point attaining v and an exact box-free dual certificate that obj.x <= v), unbounded (feasible point and recession ray with positive objective) or infeasible (Farkas), each checked by TLC; the recorded answer of optimize / get_variable_bounds / TermList.optimize must be the value within 1e-6 relative, None, or ValueError accordingly.",
+    _LP_NOTE, "TLC trace validation against LP.tla; optimality / unboundedness / infeasibility certificates", "DESIGN.md 6/C12")
